@@ -981,6 +981,44 @@ def canonicalise_ptr_methods(j):
                     t['fn'] = dict(t['fn'], path=newp, name=newp.split('::')[-1], full=newp, args=fa[:1])
                     t['fn'].pop('impl_self', None)
                     n += 1
+    # `ptr::from_ref(r)` / `ptr::from_mut(r)` is `r as *const _` / `r as *mut _`, i.e. `&raw const *r` / `&raw mut *r`
+    for b in j['bodies']:
+        for body in [b] + list(b.get('promoted') or []):
+            for blk in body['blocks']:
+                t = blk['term']
+                if t['k'] != 'call' or not t.get('fn') or t['fn'].get('path') not in ('std::ptr::from_ref', 'std::ptr::from_mut') or t.get('target') is None:
+                    continue
+                if len(t['args']) != 1 or t['args'][0].get('k') not in ('copy', 'move') or not isinstance(t['args'][0].get('p'), dict):
+                    continue
+                src = dict(t['args'][0]['p'])
+                src['p'] = list(src.get('p') or []) + ['*']
+                fa = t['fn'].get('args') or []
+                src['ty'] = str(fa[0]) if fa else src.get('ty')
+                blk['stmts'].append({'k': 'assign', 'lhs': t['dest'],
+                                     'rv': {'k': 'rawptr', 'm': 'Const' if t['fn']['path'].endswith('from_ref') else 'Mut', 'p': src},
+                                     'at': t.get('at'), 'exp': False})
+                blk['term'] = {'k': 'goto', 'target': t['target'], 'at': t.get('at')}
+                n += 1
+    # `ptr::write(cell, v)` / `cell.write(v)` of a whole `MaybeUninit<_>` (no drop glue: nothing is dropped by `*cell = v` either)
+    # is the assignment `*cell = v`
+    for b in j['bodies']:
+        for body in [b] + list(b.get('promoted') or []):
+            for blk in body['blocks']:
+                t = blk['term']
+                if t['k'] != 'call' or not t.get('fn') or t['fn'].get('path') != 'std::ptr::write' or t.get('target') is None:
+                    continue
+                fa = t['fn'].get('args') or []
+                if not (fa and str(fa[0]).replace(' ', '').startswith('std::mem::MaybeUninit<') and len(t['args']) == 2):
+                    continue
+                dst = t['args'][0]
+                if dst.get('k') not in ('copy', 'move') or not isinstance(dst.get('p'), dict):
+                    continue
+                lhs = dict(dst['p'])
+                lhs['p'] = list(lhs.get('p') or []) + ['*']
+                lhs['ty'] = str(fa[0])
+                blk['stmts'].append({'k': 'assign', 'lhs': lhs, 'rv': {'k': 'use', 'o': t['args'][1]}, 'at': t.get('at'), 'exp': False})
+                blk['term'] = {'k': 'goto', 'target': t['target'], 'at': t.get('at')}
+                n += 1
     return n
 
 
